@@ -22,7 +22,7 @@
       exps     = ((n dataflags indexflags dirpending life) ...)
     (-1) = panic, (-2) = hang. *)
 From Coq Require Import List NArith ZArith Bool Arith Lia.
-From BBS Require Import Common.Sx Persist.PBL Persist.Crash Index.RecordCodec.
+From BBS Require Import Common.Sx Index.Klm Index.KlmFnv Index.RecordCodec Persist.PBL Persist.Crash.
 (* -- *)
 Import ListNotations.
 Open Scope Z_scope.
@@ -239,7 +239,9 @@ Fixpoint tie_life (fuel : nat) (c : jcfg) (base : medium jrec) (ing obs : sx) : 
     input (1 cfg state ((slot seed epoch bfl (key32) att off size flip) ...)):
     the harness writes the state file and, through the REAL record array with hash seed [seed],
     the records (then xors device byte [flip] of the record with 1 when flip < 66), restarts the
-    real store and reports (restored ((slot (key32) att blockIndex off size) ...) ((slot (66 bytes)) ...)).
+    real store and reports (restored ((slot (key32) att blockIndex off size) ...) ((slot (66 bytes)) ...)
+    (((key32) found blockIndex off size) ...)); the last list is what the REAL key-location map (hash
+    initialisation taken from the state file) finds for every key occurring in a record.
     The model decodes the reported device bytes with Index/RecordCodec under the seed the
     restarted list gives for the record's reference. *)
 Definition diff_slot (p : pbl) (cut : nat) (e : sx) : list sx :=
@@ -257,19 +259,47 @@ Definition diff_slot (p : pbl) (cut : nat) (e : sx) : list sx :=
   | _ => []
   end.
 
+(** new_blob_access.go: the record count is lowered to a prime (when > 3) *)
+Definition is_prime (n : nat) : bool := forallb (fun d => negb (Nat.eqb (Nat.modulo n d) 0)) (seq 2 (n - 2)).
+Fixpoint adj_prime (fuel n : nat) : nat :=
+  match fuel with
+  | O => n
+  | S f => if (3 <? n)%nat && negb (is_prime n) then adj_prime f (n - 1) else n
+  end.
+
+(** the resolved record of a slot as a key-location-map table entry *)
+Definition table_entry (resolved : list sx) (s : nat) : option (Klm.rec bkey) :=
+  match find (fun e => Nat.eqb (sx_nat (sx_nth e 0)) s) resolved with
+  | Some e => Some {| rkey := sx_Ns (sx_nth e 1); ratt := sx_nat (sx_nth e 2);
+                      rloc := {| blk := sx_N (sx_nth e 3); off := sx_N (sx_nth e 4); size := sx_N (sx_nth e 5) |} |}
+  | None => None
+  end.
+
+Definition diff_key (hinit : N) (n maxget : nat) (tbl : Klm.table bkey) (k : sx) : sx :=
+  let key := sx_Ns (sx_nth k 0) in
+  match lookup_of (Klm.get bkey bkey_eqb (fnv_slot hinit n) maxget 0 (2 ^ 62) tbl key) with
+  | Some l => L [sx_nth k 0; A 1; of_N (blk l); of_N (off l); of_N (size l)]
+  | None => L [sx_nth k 0; A 0]
+  end.
+
 Definition run_diff (inp obs : sx) : sx :=
   let c := dec_cfg (sx_nth inp 1) in
   let st := Some (dec_state (sx_nth inp 2)) in
   let '(p, n) := restart (j_geom c) st in
   let cut := ocn_cut (j_old c) (j_cur c) (j_new c) n in
-  L [enc_restored c st; L (flat_map (diff_slot p cut) (sx_list (sx_nth obs 2)))].
+  let resolved := flat_map (diff_slot p cut) (sx_list (sx_nth obs 2)) in
+  let nt := adj_prime 64 (j_nrec c) in
+  let tbl := map (table_entry resolved) (seq 0 (j_nrec c)) in
+  let hinit := snd (dec_state (sx_nth inp 2)) in
+  L [enc_restored c st; L resolved;
+     L (map (diff_key hinit nt (sx_nat (sx_nth (sx_nth inp 1) 7)) tbl) (sx_list (sx_nth obs 3)))].
 
 (** ---- the judge ---- *)
 Definition judge02 (inp obs : sx) : sx :=
   match sx_Z (sx_nth inp 0) with
   | 1 =>
       let m := run_diff inp obs in
-      verdict (sx_eqb (sx_nth m 0) (sx_nth obs 0) && sx_eqb (sx_nth m 1) (sx_nth obs 1)) (abnormal obs) m
+      verdict (sx_eqb (sx_nth m 0) (sx_nth obs 0) && sx_eqb (sx_nth m 1) (sx_nth obs 1) && sx_eqb (sx_nth m 2) (sx_nth obs 3)) (abnormal obs) m
               (if abnormal obs then of_Zs [3] else of_Zs [])
   | _ =>
       let c := dec_cfg (sx_nth inp 1) in
